@@ -14,6 +14,28 @@ std::atomic<uint64_t> g_gate_hits(0);           // allocator calls attributed to
 std::atomic<uint64_t> g_libc_yield_points(0);   // libc calls intercepted inside the library
 __thread const char *g_gate_last = nullptr;
 
+// ---------------------------------------------------------------- `instr` build: the LIBRARY is compiled with -finstrument-functions
+// (the harness is not). A library function that is entered while it is already active on the same thread is recursion -
+// whatever the depth, also when the extra frames stay below the tolerance of the stack measurement.
+std::atomic<uint64_t> g_recursion_hits(0);
+void *volatile g_recursion_fn = nullptr, *volatile g_recursion_outer = nullptr;
+#ifdef SIM_INSTR
+extern "C" {
+static __thread void *g_act[512]; static __thread int g_actn = 0;
+void __cyg_profile_func_enter(void *fn, void *site) __attribute__((no_instrument_function));
+void __cyg_profile_func_exit(void *fn, void *site) __attribute__((no_instrument_function));
+void __cyg_profile_func_enter(void *fn, void *) {
+    for (int i = 0; i < g_actn && i < 512; i++) if (g_act[i] == fn) { g_recursion_hits++; g_recursion_fn = fn; g_recursion_outer = g_act[0]; break; }
+    if (g_actn < 512) g_act[g_actn] = fn;
+    g_actn++;
+}
+void __cyg_profile_func_exit(void *, void *) { if (g_actn > 0) g_actn--; }
+}
+const bool g_instr_build = true;
+#else
+const bool g_instr_build = false;
+#endif
+
 #ifdef SIM_YIELD_BUILD
 extern "C" {
 int __real_printf(const char *f, ...);
